@@ -38,6 +38,9 @@ type Obl struct {
 	ExpectSat bool
 	Canary    bool
 	GroundOnly bool // script without quantified facts (used to search for a counterexample)
+	QSuffix    int  // >0: keep only the last QSuffix quantified facts (sound weakening of the hypotheses)
+	QOnly      int  // >0 (with QEngine): keep exactly the QOnly-th spec-level quantified fact
+	QEngine    bool // with QSuffix: always keep the engine's own array-definition axioms (copy/append/frame), count only spec quantifiers
 }
 
 type watch struct {
@@ -119,6 +122,16 @@ type FnCtx struct {
 	ownT      []modTarget
 	retReach  []string
 	witness   map[string]string
+	loopTargets map[*ssa.BasicBlock]*loopFrame
+	localRefs map[string]bool
+	splits    []string
+	splitAt   int
+}
+
+type loopFrame struct {
+	targets []modTarget
+	ac      string
+	text    string
 }
 
 func (e *Engine) newFnCtx(fn *ssa.Function, c *Contract) *FnCtx {
@@ -170,7 +183,16 @@ func (fc *FnCtx) def(hint, sort, term string) string {
 	}
 	fc.ctr++
 	n := fmt.Sprintf("|%s!%d|", sanitize(hint), fc.ctr)
+	if strings.HasPrefix(sort, "(Array ") {
+		// arrays are named by constants (not macros), so that they can occur in quantifier patterns
+		fc.declare(n, sort)
+		fc.items = append(fc.items, fmt.Sprintf("(assert (= %s %s))", n, term))
+		return n
+	}
 	fc.items = append(fc.items, fmt.Sprintf("(define-fun %s () %s %s)", n, sort, term))
+	if l, ok := linTab[term]; ok {
+		linTab[n] = l
+	}
 	return n
 }
 
@@ -207,6 +229,16 @@ func (fc *FnCtx) oblige(kind, label, goal string, pos token.Pos, props []string,
 }
 
 // script renders the SMT-LIB text of one obligation.
+func (o *Obl) nQuant() int {
+	n := 0
+	for _, it := range o.fc.items[:o.NItems] {
+		if strings.Contains(it, "(forall ") || strings.Contains(it, "(exists ") {
+			n++
+		}
+	}
+	return n
+}
+
 func (o *Obl) script(withModel bool) string {
 	fc := o.fc
 	var b strings.Builder
@@ -224,8 +256,40 @@ func (o *Obl) script(withModel bool) string {
 	for _, d := range fc.decls {
 		b.WriteString(d + "\n")
 	}
+	nq := 0
+	isQuant := func(it string) bool {
+		if !(strings.Contains(it, "(forall ") || strings.Contains(it, "(exists ")) {
+			return false
+		}
+		if o.QEngine && strings.Contains(it, "(forall ((i!q ") {
+			return false // engine axiom: kept
+		}
+		return true
+	}
+	if o.QSuffix > 0 || o.QEngine {
+		for _, it := range fc.items[:o.NItems] {
+			if isQuant(it) {
+				nq++
+			}
+		}
+	}
+	qi := 0
 	for _, it := range fc.items[:o.NItems] {
-		if (o.ExpectSat || o.GroundOnly) && (strings.Contains(it, "(forall ") || strings.Contains(it, "(exists ")) {
+		isQ := isQuant(it)
+		if isQ {
+			qi++
+		}
+		if isQ && o.QEngine && o.QOnly > 0 {
+			if qi != o.QOnly {
+				continue
+			}
+			b.WriteString(it + "\n")
+			continue
+		}
+		if isQ && o.QEngine && o.QSuffix == 0 {
+			continue
+		}
+		if isQ && (o.ExpectSat || o.GroundOnly || (o.QSuffix > 0 && qi <= nq-o.QSuffix)) {
 			if strings.HasPrefix(it, "(define-fun ") {
 				// keep the name, forget the quantified definition
 				f := strings.SplitN(it, " () ", 2)
@@ -282,7 +346,8 @@ func (fc *FnCtx) genDefault(gen int, key string) string {
 		if !isAtom(t) {
 			fc.ctr++
 			n := fmt.Sprintf("|Hm%d:%s!%d|", gen, sanitize(key), fc.ctr)
-			fc.items = append(fc.items, fmt.Sprintf("(define-fun %s () %s %s)", n, fc.keySort[key], t))
+			fc.declare(n, fc.keySort[key])
+			fc.items = append(fc.items, fmt.Sprintf("(assert (= %s %s))", n, t))
 			t = n
 		}
 	}
